@@ -246,6 +246,15 @@ func c20(tier string) int {
 	pre, mon := c20Monitor(run)
 	p.preStep = pre
 	runPlan(run, p, mon, unknownReqs)
+	// The same on a clock that stands still (every request within one second:
+	// a re-submission is cosigned to the very bytes already stored), sizes 0..4,
+	// shapes that carry the witness's own earlier signature too.
+	uni.SetCosigClock(func() int64 { return 1700000000 })
+	pf := searchPlan{n: 4, divs: []int{0}, stores: []string{"mem", "sql"}, workers: 1, twoLogs: true,
+		alpha: wh.AlphaOpts{MaxN: 4, Forged: true, Shapes: []string{"plain", "stale-own-valid"}}}
+	pf.preStep = pre
+	runPlan(run, pf, mon, nil)
+	wh.InstallLogicalClock()
 	c20Faults(run)
 	for _, c := range []string{wh.OK, wh.Unknown, wh.NoSig, wh.OldInvalid, wh.Stale, wh.RootMismatch, wh.BadProof} {
 		if run.HistGet("outcomes", c) == 0 {
@@ -253,7 +262,7 @@ func c20(tier string) int {
 		}
 	}
 	run.Set("exhaustive", true)
-	run.Set("rule", fmt.Sprintf("explicit-state BFS (sizes 0..%d, main + forks at 0 and 3, both stores, single worker) over a two-log witness with a recording MetricFactory installed before the first witness is created; after every Update the delta of every counter x label is compared with the model: attempt +1 iff the log is known, success +1 iff accepted, invalid_consistency +1 iff refused for a bad proof, inconsistent_checkpoints +1 iff same size different root, nothing else moves. distinct_nontrivial = distinct (state, outcome, request)", n))
+	run.Set("rule", fmt.Sprintf("explicit-state BFS (sizes 0..%d, main + forks at 0 and 3, both stores, single worker) over a two-log witness with a recording MetricFactory installed before the first witness is created; after every Update the delta of every counter x label is compared with the model: attempt +1 iff the log is known, success +1 iff accepted, invalid_consistency +1 iff refused for a bad proof, inconsistent_checkpoints +1 iff same size different root, nothing else moves; repeated (sizes 0..4) on a clock that stands still, so that a re-submission is cosigned to the bytes already stored. distinct_nontrivial = distinct (state, outcome, request)", n))
 	run.Assumption("counters are process-wide; the search runs with one worker so deltas are attributable to one call")
 	// Concurrent leg: two byte-identical requests overlapping are two requests.
 	c05Concurrent(run, "C20", tier)
